@@ -14,173 +14,49 @@ class TranslationError(Exception):
     pass
 
 
-def _parse(rel):
+def parse_src(rel):
     p = REPO / "src" / "qib" / rel
     return ast.parse(p.read_text(), filename=str(p))
 
 
-def _find_class(mod, name):
+def find_class(mod, name):
     for n in mod.body:
         if isinstance(n, ast.ClassDef) and n.name == name:
             return n
     raise TranslationError(f"class {name} not found")
 
 
-def _find_func(node, name):
+def find_func(node, name):
     for n in node.body:
         if isinstance(n, (ast.FunctionDef, ast.AsyncFunctionDef)) and n.name == name:
             return n
     raise TranslationError(f"function {name} not found")
 
 
-def _body_nodoc(fn):
+def body_nodoc(fn):
     b = fn.body
     if b and isinstance(b[0], ast.Expr) and isinstance(getattr(b[0], "value", None), ast.Constant) and isinstance(b[0].value.value, str):
         b = b[1:]
     return b
 
 
-# ---------------------------------------------------------------------------------------------
-# backend tables (C17, C18)
-# ---------------------------------------------------------------------------------------------
 
-def status_enum():
-    cls = _find_class(_parse("backend/experiment.py"), "ExperimentStatus")
-    members = []
-    for n in cls.body:
-        if isinstance(n, ast.Assign) and len(n.targets) == 1 and isinstance(n.targets[0], ast.Name) and isinstance(n.value, ast.Constant):
-            members.append(n.targets[0].id)
-    if not members:
-        raise TranslationError("ExperimentStatus has no members")
-    fn = _find_func(cls, "is_terminal")
-    body = _body_nodoc(fn)
-    if len(body) != 1 or not isinstance(body[0], ast.Return):
-        raise TranslationError("is_terminal: expected a single return")
-    cmp_ = body[0].value
-    if not (isinstance(cmp_, ast.Compare) and isinstance(cmp_.left, ast.Name) and cmp_.left.id == "self"
-            and len(cmp_.ops) == 1 and isinstance(cmp_.ops[0], ast.In) and isinstance(cmp_.comparators[0], (ast.List, ast.Tuple, ast.Set))):
-        raise TranslationError("is_terminal: expected `return self in [ExperimentStatus.X, ...]`")
-    term = []
-    for e in cmp_.comparators[0].elts:
-        if not (isinstance(e, ast.Attribute) and isinstance(e.value, ast.Name) and e.value.id == "ExperimentStatus"):
-            raise TranslationError("is_terminal: unexpected list element")
-        term.append(e.attr)
-    return members, term
+ALL = ("tables",)   # every translator module in harness/translators/ that setup.sh should run
 
 
-def wmi_status_table():
-    cls = _find_class(_parse("backend/wmi/wmi_experiment.py"), "WMIExperiment")
-    fn = _find_func(cls, "_from_wmi_status")
-    body = _body_nodoc(fn)
-    if len(body) != 1 or not isinstance(body[0], ast.If):
-        raise TranslationError("_from_wmi_status: expected one if/elif chain")
-
-    def status_of(stmts):
-        st = None
-        for s in stmts:
-            if (isinstance(s, ast.Assign) and len(s.targets) == 1 and isinstance(s.targets[0], ast.Attribute)
-                    and isinstance(s.targets[0].value, ast.Name) and s.targets[0].value.id == "self"):
-                if s.targets[0].attr == "status":
-                    v = s.value
-                    if not (isinstance(v, ast.Attribute) and isinstance(v.value, ast.Name) and v.value.id == "ExperimentStatus"):
-                        raise TranslationError("_from_wmi_status: status must be an ExperimentStatus literal")
-                    st = v.attr
-                elif s.targets[0].attr == "error":
-                    pass
-                else:
-                    raise TranslationError("_from_wmi_status: unexpected assignment")
-            else:
-                raise TranslationError("_from_wmi_status: unexpected statement")
-        if st is None:
-            raise TranslationError("_from_wmi_status: branch without status assignment")
-        return st
-
-    table, node = [], body[0]
-    while True:
-        t = node.test
-        if not (isinstance(t, ast.Compare) and isinstance(t.left, ast.Name) and t.left.id == "status" and len(t.ops) == 1
-                and isinstance(t.ops[0], ast.Eq) and isinstance(t.comparators[0], ast.Constant) and isinstance(t.comparators[0].value, str)):
-            raise TranslationError("_from_wmi_status: expected `status == '<literal>'`")
-        table.append((t.comparators[0].value, status_of(node.body)))
-        if len(node.orelse) == 1 and isinstance(node.orelse[0], ast.If):
-            node = node.orelse[0]
-            continue
-        if not node.orelse:
-            raise TranslationError("_from_wmi_status: no catch-all else branch")
-        default = status_of(node.orelse)
-        break
-    return table, default
-
-
-def const_int(name):
-    for n in _parse("util/const.py").body:
-        tgt = None
-        if isinstance(n, ast.AnnAssign) and isinstance(n.target, ast.Name):
-            tgt, val = n.target.id, n.value
-        elif isinstance(n, ast.Assign) and len(n.targets) == 1 and isinstance(n.targets[0], ast.Name):
-            tgt, val = n.targets[0].id, n.value
-        if tgt == name:
-            if isinstance(val, ast.Constant) and isinstance(val.value, int) and val.value >= 0:
-                return val.value
-            raise TranslationError(f"{name}: expected a non-negative int literal")
-    raise TranslationError(f"{name} not found")
-
-
-def gen_tables():
-    members, term = status_enum()
-    table, default = wmi_status_table()
-    maxr = const_int("NW_MAX_RETRIES")
-    s = "-- GENERATED by harness/translate.py from /repo/src/qib -- do not edit\nnamespace QibGen\n\n"
-    s += "inductive Status where\n  | " + " | ".join(members) + "\n  deriving DecidableEq, Repr, Inhabited\n\n"
-    s += "def terminalList : List Status := [" + ", ".join("." + t for t in term) + "]\n\n"
-    s += "def wmiStatusTable : List (String × Status) :=\n  [" + ", ".join(f'({json.dumps(k)}, .{v})' for k, v in table) + "]\n\n"
-    s += f"def wmiStatusDefault : Status := .{default}\n\n"
-    s += f"def nwMaxRetries : Nat := {maxr}\n\nend QibGen\n"
-    ir = {"members": members, "terminal": term, "table": table, "default": default, "maxRetries": maxr}
-    return s, ir
-
-
-def validate_tables(ir):
-    """Front-end validation against the live module."""
-    from common import import_qib
-    import_qib()
-    from qib.backend import ExperimentStatus
-    from qib.backend.wmi import WMIExperiment
-    from qib.util import const
-    errs = []
-    if [m.name for m in ExperimentStatus] != ir["members"]:
-        errs.append("enum members differ from live module")
-    for m in ExperimentStatus:
-        if m.is_terminal() != (m.name in ir["terminal"]):
-            errs.append(f"is_terminal({m.name}) differs")
-
-    class Dummy:
-        pass
-    for k, v in ir["table"] + [("__unknown__", ir["default"]), ("", ir["default"]), ("Pending", ir["default"])]:
-        d = Dummy()
-        WMIExperiment._from_wmi_status(d, k)
-        if d.status.name != v:
-            errs.append(f"_from_wmi_status({k!r}) = {d.status.name}, IR says {v}")
-    if const.NW_MAX_RETRIES != ir["maxRetries"]:
-        errs.append("NW_MAX_RETRIES differs")
-    return errs
-
-
-ALL = ("tables",)
-
-
-def regenerate(which=("tables",)):
-    """Regenerate the requested artefacts. Returns dict(name -> IR). Raises TranslationError."""
+def regenerate(which=ALL):
+    """Run the named translator modules (harness/translators/<name>.py). Each module exposes
+    `generate() -> dict[relative Lean path -> text]` plus `validate(ir) -> list of error strings`
+    through a single `run() -> ir` that raises TranslationError on unsupported source or on a
+    front-end validation mismatch, and writes its files under lean/QibGen/ only if they changed."""
+    import importlib
     out = {}
-    if "tables" in which:
-        s, ir = gen_tables()
-        errs = validate_tables(ir)
-        if errs:
-            raise TranslationError("front-end validation failed: " + "; ".join(errs))
-        write_if_changed(LEAN / "QibGen" / "Tables.lean", s)
-        out["tables"] = ir
+    for name in which:
+        m = importlib.import_module("translators." + name)
+        out[name] = m.run()
     return out
 
 
 if __name__ == "__main__":
-    print(json.dumps(regenerate(), indent=1))
+    import sys
+    print(json.dumps(regenerate(tuple(sys.argv[1:]) or ALL), indent=1, default=str)[:4000])
